@@ -274,6 +274,8 @@ func extractRepl(repo string) {
 
 	// ---- primary: cursor, poll, push, limit
 	F.Facts["repl.poll.limit"] = rp.assignedExpr("Primary.getWALEntriesFromSequence", "maxEntriesToReturn")
+	F.Facts["repl.poll.bytes"] = one(rp.apLocalConst("Primary.getWALEntriesFromSequence", "maxBytesToReturn"), "maxBytesToReturn")
+	F.Facts["repl.poll.bytesCond"] = rp.apCondsMatching("Primary.getWALEntriesFromSequence", "maxBytesToReturn") + " ; range " + rp.apRangeOver("Primary.getWALEntriesFromSequence", "totalBytes")
 	F.Facts["repl.poll.limitCond"] = rp.replIfConds("Primary.getWALEntriesFromSequence", "maxEntriesToReturn")
 	F.Facts["repl.poll.periodMs"] = durMs(one(rp.callArgs("Primary.StreamWAL", "time.NewTicker", 0), "repl poll period"))
 	F.Facts["repl.poll.cond"] = rp.replIfConds("Primary.StreamWAL", "LastAckSequence")
@@ -423,7 +425,7 @@ func genReplState(dir string) {
 	fmt.Fprintf(&sb, "/-- target of the final `SetState` of handleConnectingState / handleStreamingState (after a batch was applied) / handleErrorState -/\n")
 	fmt.Fprintf(&sb, "def afterConnect : Nat := %s\ndef afterStreamingApply : Nat := %s\ndef afterBackoff : Nat := %s\n\n",
 		target("repl.handleConnectingState.final"), target("repl.handleStreamingState.final"), target("repl.handleErrorState.final"))
-	fmt.Fprintf(&sb, "def pollLimit : Nat := %s\ndef pollPeriodMs : Nat := %s\ndef recvTimeoutMs : Nat := %s\n", genFact("repl.poll.limit"), genFact("repl.poll.periodMs"), genFact("repl.recvTimeoutMs"))
+	fmt.Fprintf(&sb, "def pollLimit : Nat := %s\ndef pollBytes : Nat := %s\ndef pollPeriodMs : Nat := %s\ndef recvTimeoutMs : Nat := %s\n", genFact("repl.poll.limit"), genFact("repl.poll.bytes"), genFact("repl.poll.periodMs"), genFact("repl.recvTimeoutMs"))
 	fmt.Fprintf(&sb, "def hbIntervalMs : Nat := %s\ndef hbTimeoutMs : Nat := %s\ndef hbSendEmpty : Bool := %s\n", genFact("repl.DefaultHeartbeatConfig.IntervalMs"), genFact("repl.DefaultHeartbeatConfig.TimeoutMs"), genFact("repl.DefaultHeartbeatConfig.SendEmptyResponses"))
 	fmt.Fprintf(&sb, "def retryBaseMs : Nat := %s\ndef retryMaxMs : Nat := %s\n", genFact("repl.DefaultReplicaConfig.RetryBaseDelayMs"), genFact("repl.DefaultReplicaConfig.RetryMaxDelayMs"))
 	fmt.Fprintf(&sb, "/-- CreateResponse flags a pushed batch compressed iff the configured codec is not NONE; number of callers of Compress -/\n")
